@@ -149,6 +149,16 @@ def run(check):
             gap = ["", "Z1", "Z1,Z1", "Z3"][(j // 2) % 4]
             seq = ["D", "E1", "Z", "S"] + [x for x in gap.split(",") if x] + ["X", "Z", "Z", "Z", "F"]
             direct.append({"id": "c06-p%04d" % j, "mode": "provider", "scripts": {"P": c12.SCRIPTS[sn]}, "extra": {"actions": c12.to_actions(["Z" if x.startswith("Z") else x for x in seq]), "src": "P"}, "_sn": sn, "_seq": seq})
+        # the same with the window held open: the step is held for 20 ms between reading the plugin's schema and launching the
+        # execution, the stop condition arrives in that time; the closure timeout is long, so a plugin that ignores (or never
+        # gets) the signal is still executing when the close is requested
+        for j in range(check.pick(40, 200)):
+            sn = ["hang-obey", "hang-ignore"][j % 2]
+            seq = ["D", "E1", "Z", "S", "Z3", "X", "Z", "Z", "F"]
+            acts = c12.to_actions(["Z" if x.startswith("Z") else x for x in seq])
+            acts[3] = dict(acts[3], input=dict(acts[3]["input"], closure_wait_timeout=[2000, 500, 4000][(j // 2) % 3]))
+            direct.append({"id": "c06-w%04d" % j, "mode": "provider", "scripts": {"P": c12.SCRIPTS[sn]}, "extra": {"actions": acts, "src": "P"},
+                           "plan": {"sites": [{"point": "pl:runningStep.startStage:wgadd#1", "hit": 1, "ms": 20}]}, "_sn": sn + "/window-held", "_seq": seq})
         for c in direct:
             # short sleeps of 1 and 3 ms for the gap symbols
             acts, k = c["extra"]["actions"], 0
